@@ -547,6 +547,11 @@ func (x *executor) doCall(ti, ci int, ctx *callCtx) {
 		for k, v := range call.Inputs {
 			in[k] = makeTensor(v, call.Flavour[k])
 		}
+		for b, a := range call.Alias {
+			if in[a] != nil && in[b] != nil && val.Equal(call.Inputs[a], call.Inputs[b]) {
+				in[b] = in[a]
+			}
+		}
 	}
 	if poolCorrupted != "" {
 		res.Kind, res.Err, res.Skipped = "corrupted", poolCorrupted, false
